@@ -534,7 +534,7 @@ def check(prop, tier, seed):
             v["lane"] = j["lane"]
             v["cmd"] = " ".join(j["cmd"])
             merged["violations"].append(v)
-        merged["exhaustive"] = merged["exhaustive"] and rep.get("exhaustive", False)
+        pl["exhaustive"] = pl.get("exhaustive", True) and rep.get("exhaustive", False)
         for name, m in rep["floors"]:
             pl["floors"][name] = max(pl["floors"].get(name, 0), m)
     # coverage floors per lane
@@ -577,7 +577,9 @@ def check(prop, tier, seed):
         distinct_nontrivial=nontrivial,
         rule=plan["rule"],
         samples=merged["samples"] if merged["samples"] else ["(no sample recorded)"],
-        exhaustive=bool(merged["exhaustive"]) and merged["evaluations"] > 0,
+        # true when at least one full-size lane enumerated its finite space completely in every shard
+        # (interpreter-sized lanes thin the enumeration and never count)
+        exhaustive=any(v.get("exhaustive", False) and v["evaluations"] > 0 for v in per_lane.values()),
         lanes={k: dict(evaluations=v["evaluations"], shards=v["shards"], max_shard_wall_s=v["wall_s"],
                        distinct_signatures=len(v["distinct"]) + v.get("disjoint", 0)) for k, v in per_lane.items()},
         observations=merged["counters"],
